@@ -8,6 +8,7 @@ import (
 	"runtime"
 	"runtime/debug"
 	"sort"
+	"strconv"
 	"time"
 
 	"github.com/aundis/formula/simhook"
@@ -101,8 +102,10 @@ var scenarios = map[string]scenarioFn{}
 
 type siteInfo struct {
 	Sites []struct {
-		ID  int  `json:"id"`
-		Hot bool `json:"hot"`
+		ID   int    `json:"id"`
+		Hot  bool   `json:"hot"`
+		File string `json:"file"`
+		Line int    `json:"line"`
 	} `json:"sites"`
 }
 
@@ -157,9 +160,11 @@ func main() {
 		}
 		hotSite = make([]bool, len(si.Sites))
 		siteHits = make([]uint32, len(si.Sites))
+		siteNames = make([]string, len(si.Sites))
 		for _, s := range si.Sites {
 			if s.ID < len(hotSite) {
 				hotSite[s.ID] = s.Hot
+				siteNames[s.ID] = s.File + ":" + strconv.Itoa(s.Line)
 			}
 		}
 	}
